@@ -4,7 +4,7 @@ import json
 from collections.abc import Sequence
 from typing import TYPE_CHECKING, Any, Literal, Optional
 
-import numpy as np
+import pyarrow as pa
 from duckdb import DuckDBPyConnection
 
 from fakesnow.conn import FakeSnowflakeConnection
@@ -35,13 +35,36 @@ WritePandasResult = tuple[
 ]
 
 
-def sql_type(dtype: np.dtype) -> str:
-    if str(dtype) == "int64":
+def sql_type(column: pd.Series) -> str:
+    """The type of the column write_pandas creates for a dataframe column, ie: its type in the parquet file."""
+    try:
+        arrow_type = pa.Array.from_pandas(column).type
+    except (pa.ArrowInvalid, pa.ArrowTypeError):
+        arrow_type = None
+
+    if arrow_type is None or pa.types.is_string(arrow_type) or pa.types.is_large_string(arrow_type):
+        return "VARCHAR"
+    elif pa.types.is_boolean(arrow_type):
+        return "BOOLEAN"
+    elif pa.types.is_integer(arrow_type):
         return "NUMBER"
-    elif str(dtype) == "object":
+    elif pa.types.is_floating(arrow_type):
+        return "FLOAT"
+    elif pa.types.is_decimal(arrow_type):
+        return f"NUMBER({arrow_type.precision},{arrow_type.scale})"
+    elif pa.types.is_date(arrow_type):
+        return "DATE"
+    elif pa.types.is_time(arrow_type):
+        return "TIME"
+    elif pa.types.is_timestamp(arrow_type) and arrow_type.tz is None:
+        return "TIMESTAMP_NTZ"
+    elif pa.types.is_binary(arrow_type) or pa.types.is_large_binary(arrow_type):
+        return "BINARY"
+    elif str(column.dtype) == "object":
+        # dicts, lists and all-null columns
         return "VARCHAR"
     else:
-        raise NotImplementedError(f"sql_type {dtype=}")
+        raise NotImplementedError(f"sql_type dtype={column.dtype}")
 
 
 def write_pandas(
@@ -68,7 +91,7 @@ def write_pandas(
         name = f"{database}.{name}"
 
     if auto_create_table:
-        cols = [f"{c} {sql_type(t)}" for c, t in df.dtypes.to_dict().items()]
+        cols = [f"{c} {sql_type(column)}" for c, column in df.items()]
 
         conn.cursor().execute(f"CREATE TABLE IF NOT EXISTS {name} ({','.join(cols)})")
 
